@@ -260,6 +260,12 @@ def install():
             err = getattr(sock.conn, "tls_error", None) if sock.conn is not None else None
             if err is not None:
                 raise err
+            sh = k.get("server_hostname")
+            if isinstance(sh, str):
+                # as ssl.SSLContext._encode_hostname does: the idna codec refuses empty and over-long labels (UnicodeError)
+                if sh == "" or sh.startswith("."):
+                    raise ValueError("server_hostname cannot be an empty string or start with a leading dot.")
+                sh.encode("idna")
             t = _net.SimTLSSocket(sock, context=self, server_hostname=k.get("server_hostname"))
             if NETWORK is not None:
                 NETWORK.tls_wraps.append(t.context_snapshot)
